@@ -1,12 +1,14 @@
 package checks
 
 import (
+	"encoding/json"
 	"fmt"
 	"strings"
 	"time"
 
 	"github.com/go-openapi/strfmt"
 	"github.com/go-openapi/validate"
+	"github.com/go-openapi/validate/post"
 	"github.com/go-openapi/validate/verifrt"
 
 	"verif/harness/hx"
@@ -55,6 +57,7 @@ func c05scenarios(quick bool) []c05scn {
 		{name: "param ∥ header", threads: [][]Op{{c05p1}, {c05h1}}},
 		{name: "shared schema validator", shared: "schema", threads: [][]Op{{{Kind: "shared", Val: `{"a":[1,"x"],"b":"aa","s_x":"abc","t":[1,"2020-01-01",true]}`}}, {{Kind: "shared", Val: `{"a":[1],"c":3,"i_y":3,"o":1,"s_z":"ab"}`}}}},
 		{name: "shared schema validator", shared: "schema", threads: [][]Op{{{Kind: "shared", Val: `{"i_a":4,"i_b":5,"t":[1,"x",1],"o":7}`}}, {{Kind: "shared", Val: `{"s_a":"abcd","s_b":"a","b":"bb","o":"s"}`}, {Kind: "shared", Val: `{"a":["xx",3]}`}}}},
+		{name: "shared schema validator, defaults applied to each result", shared: "defaults", threads: [][]Op{{{Kind: "shared", Val: `{"p2":"x","n":{"q2":1}}`}}, {{Kind: "shared", Val: `{"p1":5,"n":{}}`}}}},
 		{name: "shared param validator", shared: "param", threads: [][]Op{{{Kind: "shared", Val: `[]string:aa|b`}}, {{Kind: "shared", Val: `[]string:aa|bb`}}}},
 		{name: "helpers", threads: [][]Op{{{Kind: "helper", Def: "pattern"}}, {{Kind: "helper", Def: "enum"}, {Kind: "helper", Def: "pattern"}}}},
 		{name: "setter ∥ spec", heavy: true, threads: [][]Op{{c05on}, {c05sB}}},
@@ -77,6 +80,25 @@ func c05scenarios(quick bool) []c05scn {
 // state: properties, two pattern properties with different sub-schemas, additionalProperties, tuple and
 // list items, anyOf/oneOf/not, dependencies, enum, format, numeric and string constraints
 const c05sharedSchema = `{"type":"object","properties":{"a":{"type":"array","items":{"anyOf":[{"type":"integer","maximum":2},{"type":"string","minLength":2}]}},"b":{"type":"string","pattern":"^b"},"t":{"type":"array","items":[{"type":"integer"},{"type":"string","format":"date"}],"additionalItems":{"type":"boolean"},"uniqueItems":true},"o":{"oneOf":[{"type":"integer"},{"maximum":2},{"type":"string"}],"not":{"enum":[7]}}},"patternProperties":{"^s_":{"type":"string","minLength":3},"^i_":{"type":"integer","multipleOf":2}},"dependencies":{"b":{"required":["a"]}},"additionalProperties":{"type":"string"},"minProperties":1}`
+
+// a long-lived validator whose properties carry different defaults (the part of a result that
+// post.ApplyDefaults consumes is returned by the call as well)
+const c05defaultsSchema = `{"type":"object","properties":{"p1":{"type":"integer","default":1},"p2":{"type":"string","default":"two"},"p3":{"type":"boolean","default":true},"n":{"type":"object","properties":{"q1":{"type":"integer","default":11},"q2":{"type":"integer","default":12}}}}}`
+
+// c05defaulted is the outcome of one call on the validator above: messages + the document after
+// post.ApplyDefaults.
+func c05defaulted(v *validate.SchemaValidator, val string) string {
+	data := parseInstance(val)
+	res := v.Validate(data)
+	out := resultOutcome(res).Key()
+	post.ApplyDefaults(res)
+	return out + " ; after ApplyDefaults: " + c05json(data)
+}
+
+func c05json(v any) string {
+	b, _ := json.Marshal(v) // map keys are sorted by encoding/json
+	return string(b)
+}
 
 func c05(c *hx.Ctx) int {
 	if c.Worker >= 0 {
@@ -154,6 +176,9 @@ func c05worker(c *hx.Ctx) int {
 			case "schema":
 				sch, _ := parseSpecSchema(c05sharedSchema)
 				shared = validate.NewSchemaValidator(sch, nil, "", strfmt.Default)
+			case "defaults":
+				sch, _ := parseSpecSchema(c05defaultsSchema)
+				shared = validate.NewSchemaValidator(sch, nil, "", strfmt.Default)
 			case "param":
 				p, _ := parseParam(c04params[8])
 				sharedParam = validate.NewParamValidator(p, strfmt.Default)
@@ -167,7 +192,11 @@ func c05worker(c *hx.Ctx) int {
 				o := o
 				switch o.Kind {
 				case "shared":
-					if s.shared == "schema" {
+					if s.shared == "defaults" {
+						calls = append(calls, Call{Name: "shared.Validate+ApplyDefaults(" + o.Val + ")", Do: func() string { return c05defaulted(shared, o.Val) }})
+						sch, _ := parseSpecSchema(c05defaultsSchema)
+						want[t] = append(want[t], []string{c05defaulted(validate.NewSchemaValidator(sch, nil, "", strfmt.Default), o.Val)})
+					} else if s.shared == "schema" {
 						calls = append(calls, Call{Name: "shared.Validate(" + o.Val + ")", Do: func() string { return resultOutcome(shared.Validate(parseInstance(o.Val))).Key() }})
 						fo, _ := validatorObject(c05sharedSchema, parseInstance(o.Val), "", strfmt.Default)
 						want[t] = append(want[t], []string{fo.Key()})
